@@ -133,6 +133,10 @@ def bounded(tier, seed, repo_root):
     xs, cs = gt.xml_specs(), gt.csv_specs()
     jobs += [(('xml', rnd.choice(xs)), ('xml', rnd.choice(xs)), gt.OPTION_COMBOS[rnd.randrange(9)]) for _ in range(600 if tier == 'quick' else 6000)]
     jobs += [(('csv', rnd.choice(cs)), ('csv', rnd.choice(cs)), gt.OPTION_COMBOS[rnd.randrange(9)]) for _ in range(300 if tier == 'quick' else 3000)]
+    # data-class nodes (Python sources through pydiff.ast_to_tree: assignments, calls, imports, subscripts), whose slots hold any
+    # other kind of edit
+    ps = gt.pyast_sources()
+    jobs += [(('pyast', a), ('pyast', b), o) for a in ps for b in ps if a is not b for o in (gt.OPTION_COMBOS[0], gt.OPTION_COMBOS[4])][::1 if tier != 'quick' else 2]
     res = pmap(_run_pair, jobs, repo_root, skip_result=(0, [], []))
     fails = [f for _, fs, _ in res for f in fs]
     calls = sum(c for c, _, _ in res)
@@ -141,7 +145,7 @@ def bounded(tier, seed, repo_root):
     return [{
         'name': 'C04.protocol-monitor', 'bound': f"documents <= {4 if tier == 'quick' else 5} nodes over {atoms!r}; "
         f"{len(pairs)} ordered pairs ({'all' if exhaustive else 'seeded sample'}); option combination cycles through the 9; "
-        f"step budget {STEP_BUDGET}",
+        f"step budget {STEP_BUDGET}; large-size cases, plist wrapper, XML, CSV, and {len(ps)} small Python sources as data-class trees (pairs x 2 options)",
         'evaluations': len(jobs), 'distinct_nontrivial': nontrivial, 'exhaustive': False,
         'monitored_classes': classes, 'monitored_tighten_calls': calls,
         'rule': 'pair x options -> refine the top-level edit to fix-point with the protocol monitor on every class that '
